@@ -1,5 +1,5 @@
 /-
-C08 — known finding F30: the RETRY DELAY is ignored for an attempt that fails WITHOUT container
+C08 — F30 (REPAIRED in /repo): the retry delay of an attempt that fails WITHOUT container
 termination info.
 
 C08: "a retry is never created before retryDelaySeconds have elapsed since the previous attempt
@@ -7,11 +7,15 @@ finished".  The theorems (`C08Plan`: earliest = latest RECORDED finish + delay; 
 finish time that is recorded for the attempt.  For a pod that reaches phase Failed with no container
 status carrying a termination time (kubelet eviction, node lost, DeadlineExceeded without
 activeDeadlineSeconds) `PodTask.GetFinishTimestamp` falls back to `status.startTime` (else the creation
-time): what is recorded as the finish of the attempt is the instant it STARTED.  The history below is
-inside the kubelet contract (`KubeletOK`: the phase only moves forward) and needs no fault, no lag and
+time).  Before the repair that fallback was RECORDED: the finish of the attempt was the instant it
+STARTED, and the retry of an attempt that had run for an hour was created seconds after it ended.
+Since the repair `PodTask.GetTaskRef` records `ktime.Now()` for such a pod (`Pod.recordedFinish`): the
+clock of the pass that first observes the pod finished, which is not before the instant it finished;
+`GetTaskRef` of `jobutil` keeps that first value on later observations (fix 6ab84c2).  The history below
+is inside the kubelet contract (`KubeletOK`: the phase only moves forward) and needs no fault, no lag and
 no user action; it is replayed on the real controller by the corpus scenario
-`f30-evicted-task-retry-ignores-delay`, whose monitor `retry-delay-true-finish` judges the create against
-the instant at which the simulated kubelet really ended the attempt.
+`f30-evicted-task-retry-respects-delay`, whose monitor `retry-delay-true-finish` judges every create
+against the instant at which the simulated kubelet really ended the attempt.
 -/
 import FurikoModel.Props.SideCommon
 
@@ -38,24 +42,37 @@ def evictRun2 : List Action :=
   [.kubelet (withStatus (podOf eK1 "job-h-0") .failed (some (secs 5)) []), .deliverPod, .work, .deliverJob,
    .advance (sec 2), .work]
 def eK2 : Sys := runActs eK1 evictRun2
+/-- one second before the delay has elapsed a pass runs … -/
+def evictRun3 : List Action := [.advance (sec 597), .work]
+def eK3 : Sys := runActs eK2 evictRun3
+/-- … and one at the instant it has -/
+def evictRun4 : List Action := [.advance (sec 1), .work]
+def eK4 : Sys := runActs eK3 evictRun4
 
-/-- witness (F30): a reachable history without faults, informer lag, user action, external deletion —
-only passes, deliveries, kubelet status writes that respect the kubelet contract, and the clock.  The
-attempt `job-h-0` runs from 5 s and is ended by the kubelet at clock 3605 s; the finish time RECORDED
-for it is 5 s (its start); the retry `job-h-1` is created by the pass at clock 3607 s — 2 s after the
-attempt finished, with `retryDelaySeconds` = 600.  (`C08Plan`'s `retry_delay_respected` holds on this
-history: 5 s + 600 s ≤ 3607 s.) -/
-theorem evicted_retry_ignores_delay_witness :
-    Reach lagAndLoss jobE eK2 ∧
-    eK1.clock = secs 3605 ∧ eK2.clock = secs 3607 ∧
+/-- regression (F30 repaired), the history of the former witness `evicted_retry_ignores_delay_witness`
+continued: a reachable history without faults, informer lag, user action, external deletion — only
+passes, deliveries, kubelet status writes that respect the kubelet contract, and the clock.  The attempt
+`job-h-0` runs from 5 s and is ended by the kubelet at clock 3605 s; the finish time RECORDED for it is
+3605 s — the clock of the pass that observed it, not before the kubelet's instant — and stays 3605 s when
+the pass at 3607 s observes the pod again; that pass (2 s after the end, `retryDelaySeconds` = 600) and the
+pass at 4204 s issue NO call and leave the timer at 4205 s armed; the retry `job-h-1` is created by the
+pass at clock 4205 s = 3605 s + 600 s. -/
+theorem evicted_retry_respects_delay :
+    Reach lagAndLoss jobE eK4 ∧
+    eK1.clock = secs 3605 ∧ eK2.clock = secs 3607 ∧ eK3.clock = secs 4204 ∧ eK4.clock = secs 4205 ∧
     (jobE.job.template.bind (·.retryDelaySeconds)) = some 600 ∧
     refsView eK1 = [("job-h-0", .running, .none, some (secs 5), none)] ∧
-    callsOf eK2 = [("create", "pods", "job-h-1", "ok", false), ("update", "jobs", "job", "ok", true)] ∧
-    refsView eK2 = [("job-h-0", .terminated, .failed, some (secs 5), some (secs 5)),
+    (callsOf eK2 = [] ∧ eK2.q.delayed = [("ns/job", secs 4205)] ∧
+      refsView eK2 = [("job-h-0", .terminated, .failed, some (secs 5), some (secs 3605))]) ∧
+    (callsOf eK3 = [] ∧ eK3.q.delayed = [("ns/job", secs 4205)] ∧ eK3.pods.map (·.pod.name) = ["job-h-0"]) ∧
+    callsOf eK4 = [("create", "pods", "job-h-1", "ok", false), ("update", "jobs", "job", "ok", true)] ∧
+    refsView eK4 = [("job-h-0", .terminated, .failed, some (secs 5), some (secs 3605)),
                     ("job-h-1", .starting, .none, none, none)] :=
-  ⟨reach_run (reach_run (reach_run (.init 0 {} Ex.d (by decide +kernel)) Ex.runA (by decide +kernel)) evictRun1
-      (by decide +kernel)) evictRun2 (by decide +kernel),
-    by decide +kernel, by decide +kernel, by decide +kernel, by decide +kernel, by decide +kernel, by decide +kernel⟩
+  ⟨reach_run (reach_run (reach_run (reach_run (reach_run (.init 0 {} Ex.d (by decide +kernel)) Ex.runA (by decide +kernel))
+      evictRun1 (by decide +kernel)) evictRun2 (by decide +kernel)) evictRun3 (by decide +kernel)) evictRun4 (by decide +kernel),
+    by decide +kernel, by decide +kernel, by decide +kernel, by decide +kernel, by decide +kernel, by decide +kernel,
+    ⟨by decide +kernel, by decide +kernel, by decide +kernel⟩,
+    ⟨by decide +kernel, by decide +kernel, by decide +kernel⟩, by decide +kernel, by decide +kernel⟩
 
 /-! ### F19 through a stale POD cache: the pod cache serves the PREVIOUS incarnation of a task name
 
@@ -76,11 +93,11 @@ def incRun1 : List Action := [.deliverJob, .setFaults ["", "conflict"], .work]
 def iK1 : Sys := runActs i0 incRun1
 def inc1Failed : PodObj :=
   withStatus (podOf iK1 "job-h-0") .failed (some 0)
-    [{ terminated := some { startedAt := some 0, finishedAt := some 0, reason := "OOMKilled" } }]
-/-- incarnation 1 ends Failed / OOMKilled, the pod cache catches up with it, the object vanishes (its
-delete event stays undelivered); 100 s later … -/
+    [{ terminated := some { startedAt := some 0, finishedAt := some (secs 1), reason := "OOMKilled" } }]
+/-- incarnation 1 ends Failed / OOMKilled at 1 s, the pod cache catches up with it, the object vanishes
+(its delete event stays undelivered); at 100 s … -/
 def incRun2 : List Action :=
-  [.kubelet inc1Failed, .deliverPod, .deliverPod, .externalDelete "job-h-0", .advance (sec 100)]
+  [.advance (sec 1), .kubelet inc1Failed, .deliverPod, .deliverPod, .externalDelete "job-h-0", .advance (sec 99)]
 def iPre : Sys := runActs iK1 incRun2
 /-- … a pass runs: `status.tasks` is empty and the name is free on the server: incarnation 2 is created
 and recorded -/
@@ -99,7 +116,7 @@ def iK4 : Sys := runActs iK3 incRun4
 
 /-- witness (F19 through a stale pod cache).  Every action allowed (one conflict fault, informer lag, one
 external deletion).  The pass `iPre → iK2` starts outside the envelope.  In `iK3` the ref `job-h-0` is
-recorded Terminated / Failed with finish time 0 s — incarnation 1's — while the pod of that name on the
+recorded Terminated / Failed with finish time 1 s — incarnation 1's — while the pod of that name on the
 server (incarnation 2, created at 100 s) is Running; in `iK4` that pod has Succeeded, the recorded outcome
 is kept, and the pass creates the retry `job-h-1`: a task is created for an index whose live task has
 succeeded. -/
@@ -108,7 +125,7 @@ theorem stale_pod_cache_previous_incarnation_witness :
     noStaleCheck iPre = false ∧
     (iPre.pods.map (·.pod.name) = [] ∧ iPre.podCache.map (fun p => (p.pod.name, p.pod.phase)) = [("job-h-0", .failed)]) ∧
     callsOf iK2 = [("create", "pods", "job-h-0", "ok", false), ("update", "jobs", "job", "ok", true)] ∧
-    (refsView iK3 = [("job-h-0", .terminated, .failed, none, some 0)] ∧
+    (refsView iK3 = [("job-h-0", .terminated, .failed, none, some (secs 1))] ∧
       iK3.pods.map (fun p => (p.pod.name, p.pod.phase, p.pod.creationTimestamp)) = [("job-h-0", .running, some (secs 100))]) ∧
     callsOf iK4 = [("create", "pods", "job-h-1", "ok", false), ("update", "jobs", "job", "ok", true)] ∧
     iK4.pods.map (fun p => (p.pod.name, p.pod.phase)) = [("job-h-0", .succeeded), ("job-h-1", .other)] :=
